@@ -15,7 +15,10 @@ Routes
     count, straight lines; bspline continuity / left-equivariance / constant twist (torch.matrix_exp
     of the 4x4 generator) / end points; order of the statistics, zero for identical trajectories, rpe
     invariance under left multiplication, ape invariance under rigid / similarity transforms with
-    align (and scale); radian / degree errors and geodesic_loss against 2 atan2(|v|, |w|)."""
+    align (and scale); radian / degree errors and geodesic_loss against 2 atan2(|v|, |w|);
+    geodesic_loss over batch shapes (unbatched, multi-dimensional, broadcasting, empty), mixed types,
+    memory layouts and call forms (geo_shape_laws); chspline / bspline per batch item, per memory
+    layout, repeatable, non-mutating (chs_batch_laws, bs_laws 'batch')."""
 import math
 from ..common import *
 from ..lie import *
@@ -81,6 +84,9 @@ def chs_laws(pp, torch, pts, a, b, line=None):
     if not torch.equal(out.index_select(-2, idx), pts):
         d = (out.index_select(-2, idx) - pts).abs().max().item()
         return 'chspline does not pass through the input points at the integer times (max deviation %g)' % d
+    why = chs_batch_laws(pp, torch, pts, q, out)
+    if why:
+        return why
     if line is not None:
         a0, b0 = line
         # times as the property states them: n + j * interval
@@ -91,6 +97,58 @@ def chs_laws(pp, torch, pts, a, b, line=None):
         if dev > tol:
             return 'chspline does not reproduce the straight line a + t b (max deviation %g, tolerance %g)' % (dev, tol)
     return None
+
+
+def noncontig_views(torch, t):
+    """views equal to t with other strides: last two axes swapped in memory, leading axes reversed in memory,
+    every second entry of a longer point axis, a window of a wider last axis (storage offset)"""
+    out = []
+    out.append(('last two axes transposed in memory', t.transpose(-1, -2).contiguous().transpose(-1, -2)))
+    if t.dim() >= 3:
+        perm = list(range(t.dim() - 2))[::-1] + [t.dim() - 2, t.dim() - 1]
+        out.append(('batch axes reversed in memory', t.permute(*perm).contiguous().permute(*perm)))
+    big = torch.full(tuple(t.shape[:-2]) + (2 * t.shape[-2], t.shape[-1] + 2), 9.5, dtype=t.dtype)
+    v = big[..., ::2, 1:1 + t.shape[-1]]
+    v.copy_(t)
+    out.append(('strided slice of a larger tensor', v))
+    return out
+
+
+def chs_batch_laws(pp, torch, pts, q, out):
+    """the spline is computed independently per batch item and column, does not depend on the memory layout
+    of its argument, is repeatable and does not modify its argument"""
+    keep = pts.clone()
+    again = pp.chspline(pts, q)
+    if not torch.equal(pts, keep):
+        return 'chspline modified its argument in place'
+    if not torch.equal(again, out):
+        return 'chspline returned different results for two calls with the same argument'
+    tol = 1e-12 * (1 + float(pts.abs().max()))
+    if pts.dim() > 2 and pts.shape[:-2].numel() > 0:
+        flat = pts.reshape((-1,) + tuple(pts.shape[-2:]))
+        fo = out.reshape((-1,) + tuple(out.shape[-2:]))
+        for bi in sorted(set([0, flat.shape[0] - 1])):
+            one = pp.chspline(flat[bi], q)
+            if one.shape != fo[bi].shape or (one - fo[bi]).abs().max().item() > tol:
+                return 'chspline of batch shape %s: item %d differs from chspline of that item alone (shape %s vs %s)' % (
+                    tuple(pts.shape[:-2]), bi, tuple(fo[bi].shape), tuple(one.shape))
+    if pts.shape[-1] > 1:
+        one = pp.chspline(pts[..., :1].contiguous(), q)
+        if one.shape != out[..., :1].shape or (one - out[..., :1]).abs().max().item() > tol:
+            return 'chspline: column 0 of the result differs from chspline of column 0 alone'
+    for name, v in noncontig_views(torch, pts):
+        o = pp.chspline(v, q)
+        if o.shape != out.shape or (o - out).abs().max().item() > tol:
+            return 'chspline of the same points as a non-contiguous tensor (%s) differs (shape %s vs %s)' % (name, tuple(o.shape), tuple(out.shape))
+    return None
+
+
+def chs_key(why):
+    for word, key in (('straight', 'line'), ('modified', 'mutation'), ('two calls', 'repeatable'), ('alone', 'batch'),
+                      ('non-contiguous', 'layout'), ('shape', 'count')):
+        if word in why:
+            return 'chspline:' + key
+    return 'chspline:interpolation'
 
 
 def chs_case_dict(pts, a, b, line):
@@ -194,6 +252,35 @@ def bs_laws(pp, torch, data, a, b, which, extra=None):
             if bad:
                 j = bad[0]
                 return 'bspline through T0 Exp(n xi) is not T0 Exp(t xi) at sample %d (t = %g): matrix deviation %g' % (j, times[j], dev[j].item())
+            return None
+        if which == 'batch':
+            # batched poses: every item is interpolated on its own, whatever the batch shape / memory layout;
+            # the argument is not modified, two calls agree
+            sh = tuple(extra['sh'])
+            items = extra['items']
+            N = len(items[0])
+            T = torch.tensor(items, dtype=torch.float64).reshape(sh + (N, 7))
+            for ex in (False, True):
+                keep = T.clone()
+                X = pp.SE3(T)
+                out = pp.bspline(X, q, ex)
+                cnt = ((N + 4 if ex else N) - 3) * k + 1
+                if tuple(out.shape) != sh + (cnt, 7):
+                    return 'bspline(extrapolate=%s) of poses of shape %s returned shape %s, expected %s' % (ex, tuple(T.shape), tuple(out.shape), sh + (cnt, 7))
+                if not torch.equal(T, keep) or not torch.equal(X.tensor(), keep):
+                    return 'bspline(extrapolate=%s) modified its argument in place' % ex
+                if not torch.equal(pp.bspline(X, q, ex).tensor(), out.tensor()):
+                    return 'bspline(extrapolate=%s) returned different results for two calls with the same argument' % ex
+                fo = out.tensor().reshape(-1, cnt, 7)
+                for bi in sorted(set([0, len(items) // 2, len(items) - 1])):
+                    one = pp.bspline(SE3t(pp, torch, items[bi]), q, ex)
+                    d = pose_dist(torch, one, pp.SE3(fo[bi]))
+                    if d > tol:
+                        return 'bspline(extrapolate=%s) of batch shape %s: item %d differs from bspline of that item alone by %g' % (ex, sh, bi, d)
+                for name, v in noncontig_views(torch, T):
+                    o = pp.bspline(pp.SE3(v), q, ex)
+                    if o.shape != out.shape or pose_dist(torch, o, out) > tol:
+                        return 'bspline(extrapolate=%s) of the same poses as a non-contiguous tensor (%s) differs' % (ex, name)
             return None
         if which == 'endpoints':
             X = SE3t(pp, torch, data)
@@ -462,6 +549,234 @@ def geo_laws(pp, torch, ltype, xs, ys):
     return None
 
 
+def rot_quat(lt, e):
+    """unit quaternion of the rotation part of one element (group: the stored quaternion; algebra: the
+    quaternion of the rotation vector phi, (sin(|phi|/2) phi/|phi|, cos(|phi|/2))) - plain python"""
+    if lt[0].isupper():
+        o = 3 if lt in ('SE3', 'Sim3') else 0
+        return list(e[o:o + 4])
+    o = 3 if lt in ('se3', 'sim3') else 0
+    phi = e[o:o + 3]
+    th = math.sqrt(sum(v * v for v in phi))
+    if th == 0.0:
+        return [0.0, 0.0, 0.0, 1.0]
+    s = math.sin(th / 2) / th
+    return [phi[0] * s, phi[1] * s, phi[2] * s, math.cos(th / 2)]
+
+
+def elt_dim(lt):
+    return GDIM[lt] if lt[0].isupper() else ADIM[GROUPS[ALGS.index(lt)]]
+
+
+def numel(shape):
+    n = 1
+    for s in shape:
+        n *= s
+    return n
+
+
+def bcast_shape(sa, sb):
+    """broadcast of two batch shapes (None if incompatible), written out from the broadcasting rule"""
+    n = max(len(sa), len(sb))
+    a = (1,) * (n - len(sa)) + tuple(sa)
+    b = (1,) * (n - len(sb)) + tuple(sb)
+    out = []
+    for u, v in zip(a, b):
+        if u != v and u != 1 and v != 1:
+            return None
+        out.append(v if u == 1 else u)
+    return tuple(out)
+
+
+def bcast_index(idx, shape):
+    """flat (row-major) index into a tensor of batch shape `shape` of the broadcast multi-index idx"""
+    idx = idx[len(idx) - len(shape):]
+    f = 0
+    for i, s in zip(idx, shape):
+        f = f * s + (0 if s == 1 else i)
+    return f
+
+
+def multi_indices(shape):
+    out = [()]
+    for s in shape:
+        out = [o + (i,) for o in out for i in range(s)]
+    return out
+
+
+LAYOUTS = ('contiguous', 'transposed', 'slice', 'wide', 'expand')
+
+
+def laid_out(torch, flat, shape, dim, layout, bshape):
+    """float64 tensor of logical shape `shape + (dim,)` holding the elements `flat` (row-major), in the
+    requested memory layout; returns (tensor, base) - base is the tensor whose storage is viewed"""
+    t = torch.tensor(flat, dtype=torch.float64).reshape(tuple(shape) + (dim,))
+    nb = len(shape)
+    if layout == 'transposed' and nb >= 2:
+        perm = list(range(nb))[::-1] + [nb]
+        base = t.permute(*perm).contiguous()
+        return base.permute(*perm), base
+    if layout == 'transposed' and nb == 1:           # component axis major
+        base = t.t().contiguous()
+        return base.t(), base
+    if layout == 'slice' and nb >= 1:                 # every second element of a longer batch axis
+        sh = list(t.shape)
+        sh[nb - 1] *= 2
+        base = torch.full(sh, 7.25, dtype=torch.float64)
+        v = base[(slice(None),) * (nb - 1) + (slice(0, None, 2),)]
+        v.copy_(t)
+        return v, base
+    if layout == 'wide':                              # a window of a wider component axis, storage offset
+        base = torch.full(tuple(shape) + (dim + 3,), -3.5, dtype=torch.float64)
+        v = base[..., 2:2 + dim]
+        v.copy_(t)
+        return v, base
+    if layout == 'expand' and bshape is not None and tuple(bshape) != tuple(shape):
+        return t.expand(tuple(bshape) + (dim,)), t    # stride-0 view of the broadcast shape
+    return t, t
+
+
+def geo_shape_laws(pp, torch, c):
+    """geodesic_loss for every batch shape: unbatched, 1-D, multi-dimensional, broadcasting input / target,
+    empty; every memory layout; every call form (positional / keyword / default reduction, module with
+    constructor argument / default, one module object reused).  Oracle: 2 atan2(|v|, |w|) of the relative
+    quaternion of every broadcast pair, computed in plain python; 'mean' = sum of ALL these angles divided by
+    their number, 'sum' = their sum, 'none' = the array of the broadcast batch shape.  Also range, symmetry,
+    non-mutation of both arguments and repeatability."""
+    lx, ly, sx, sy = c['lx'], c['ly'], tuple(c['sx']), tuple(c['sy'])
+    bs = bcast_shape(sx, sy)
+    if bs is None:
+        return None
+    try:
+        tx, bx = laid_out(torch, c['xs'], sx, elt_dim(lx), c['layx'], bs)
+        ty, by = laid_out(torch, c['ys'], sy, elt_dim(ly), c['layy'], bs)
+        X = pp.LieTensor(tx, ltype=getattr(pp, lx + '_type'))
+        Y = pp.LieTensor(ty, ltype=getattr(pp, ly + '_type'))
+        snap = [bx.clone(), by.clone(), X.tensor().clone(), Y.tensor().clone()]
+        qx = [rot_quat(lx, e) for e in c['xs']]
+        qy = [rot_quat(ly, e) for e in c['ys']]
+        ref = [q_angle(qy[bcast_index(i, sy)], qx[bcast_index(i, sx)]) for i in multi_indices(bs)] if numel(bs) else []
+        n = len(ref)
+        desc = 'geodesic_loss(%s%s [%s], %s%s [%s]' % (lx, list(sx), c['layx'], ly, list(sy), c['layy'])
+        # another pair of arguments, used to give the module objects a history
+        ox = pp.LieTensor(torch.tensor([[0.0, 0.0, 0.0, 1.0]] * 3, dtype=torch.float64), ltype=pp.SO3_type)
+        oy = pp.LieTensor(torch.tensor([[1.0, 0.0, 0.0, 0.0]] * 3, dtype=torch.float64), ltype=pp.SO3_type)
+        crit = {}
+        for red in ('sum', 'none', 'mean'):
+            crit[red] = pp.module.GeodesicLoss(reduction=red)
+            crit[red](ox, oy)
+        for red in ('none', 'mean', 'sum'):
+            forms = [('geodesic_loss(x, y, %r)' % red, lambda A, B: pp.geodesic_loss(A, B, red)),
+                     ('geodesic_loss(x, y, reduction=%r)' % red, lambda A, B: pp.geodesic_loss(A, B, reduction=red)),
+                     ('geodesic_loss(input=x, target=y, reduction=%r)' % red, lambda A, B: pp.geodesic_loss(input=A, target=B, reduction=red)),
+                     ('GeodesicLoss(reduction=%r)(x, y) [second call on the object]' % red, lambda A, B: crit[red](A, B)),
+                     ('GeodesicLoss(%r)(x, y)' % red, lambda A, B: pp.module.GeodesicLoss(red)(A, B)),
+                     ('geodesic_loss(x, y, %r) [repeated]' % red, lambda A, B: pp.geodesic_loss(A, B, red))]
+            if red == 'mean':
+                forms += [('geodesic_loss(x, y) [default reduction]', lambda A, B: pp.geodesic_loss(A, B)),
+                          ('GeodesicLoss()(x, y) [default reduction]', lambda A, B: pp.module.GeodesicLoss()(A, B))]
+            if red == 'none':
+                exp, eshape = ref, bs
+            elif red == 'sum':
+                exp, eshape = [math.fsum(ref)], ()
+            else:
+                exp, eshape = ([math.fsum(ref) / n] if n else None), ()
+            hi = math.pi * (max(n, 1) if red == 'sum' else 1)
+            first = None
+            for (name, f) in forms:
+                o = f(X, Y)
+                if isinstance(o, pp.LieTensor):
+                    o = o.tensor()
+                if tuple(o.shape) != tuple(eshape):
+                    return '%s: %s returned shape %s, expected %s' % (desc + ')', name, tuple(o.shape), tuple(eshape))
+                a = o.reshape(-1).tolist()
+                if exp is None:                       # mean over an empty batch: no angle to average, not judged
+                    continue
+                if any(not (v == v and -1e-300 <= v <= hi * (1 + 1e-12)) for v in a):
+                    return '%s: %s = %s is outside [0, %s]' % (desc + ')', name, a[:6], '%d pi' % n if red == 'sum' else 'pi')
+                tol = 1e-7 * (max(n, 1) if red == 'sum' else 1)
+                if any(abs(u - v) > tol for u, v in zip(a, exp)):
+                    return ('%s: %s = %s is not the rotation angle between the rotation parts: the %d angles are %s, expected %s'
+                            % (desc + ')', name, a[:6], n, [round(v, 9) for v in ref[:8]], [round(v, 9) for v in exp[:6]]))
+                if first is None:
+                    first = a
+                elif a != first:
+                    return '%s: %s = %s differs from %s = %s' % (desc + ')', name, a[:6], forms[0][0], first[:6])
+                b = f(Y, X)
+                if isinstance(b, pp.LieTensor):
+                    b = b.tensor()
+                bl = b.reshape(-1).tolist()
+                if tuple(b.shape) != tuple(eshape) or any(not abs(u - v) <= 1e-9 * (max(n, 1) if red == 'sum' else 1) for u, v in zip(a, bl)):
+                    return '%s: %s is not symmetric: %s (shape %s) vs %s (shape %s) with the arguments swapped' % (
+                        desc + ')', name, a[:6], tuple(o.shape), bl[:6], tuple(b.shape))
+        for was, now, who in zip(snap, [bx, by, X.tensor(), Y.tensor()], ['input (base)', 'target (base)', 'input', 'target']):
+            if was.shape != now.shape or not torch.equal(was, now):
+                return '%s): the call modified its %s argument in place' % (desc, who)
+    except Exception as e:
+        return 'geodesic_loss(%s%s [%s], %s%s [%s]) raised %r' % (lx, list(sx), c['layx'], ly, list(sy), c['layy'], e)
+    return None
+
+
+GEO_SHAPES = [((), ()), ((1,), (1,)), ((5,), (5,)), ((3, 4), (3, 4)), ((2, 3, 2), (2, 3, 2)), ((1,), (6,)), ((6,), (1,)),
+              ((), (4,)), ((4,), ()), ((4, 1), (1, 3)), ((2, 1, 3), (4, 1)), ((3,), (2, 3)), ((2, 3), (3,)), ((1, 1), (1,)),
+              ((2, 2), ()), ((), (3, 2)), ((7, 1), (7, 1)), ((1, 5), (1, 5)), ((0,), (0,)), ((2, 0), (1,)), ((3, 1), (0,))]
+
+
+def gen_geo_shape(rng, torch, gi):
+    """one geodesic case: type pair, batch shapes (directed list first, then random), layouts, elements
+    mixing special rotations (identity, equal, opposite sign, half turn, tiny) with generic ones"""
+    if gi < len(GEO_SHAPES):
+        sx, sy = GEO_SHAPES[gi]
+    else:
+        nb = rng.choice([0, 1, 1, 2, 2, 3])
+        full = tuple(rng.randint(1, 4) for _ in range(nb))
+        def sub(sh):
+            mode = rng.choice(['same', 'same', 'ones', 'drop'])
+            if mode == 'ones':
+                sh = tuple(1 if rng.random() < 0.5 else s for s in sh)
+            elif mode == 'drop' and sh:
+                sh = sh[rng.randint(1, len(sh)):]
+            return sh
+        sx, sy = sub(full), sub(full)
+    lx = ALGS8[gi % 8] if gi < 2 * len(GEO_SHAPES) or rng.random() < 0.7 else rng.choice(ALGS8)
+    ly = lx if rng.random() < 0.75 else rng.choice(ALGS8)
+
+    def elt(lt, like=None):
+        kind = rng.choice(['generic', 'generic', 'generic', 'identity', 'half', 'tiny', 'like', 'neg'])
+        if lt[0].isupper():
+            e = generic_elt(rng, lt, torch, torch.float64)
+            o = 3 if lt in ('SE3', 'Sim3') else 0
+            if kind == 'identity':
+                e[o:o + 4] = [0.0, 0.0, 0.0, 1.0]
+            elif kind == 'half':
+                e[o:o + 4] = list(rng.choice([[1.0, 0.0, 0.0, 0.0], [0.0, 0.6, 0.8, 0.0], [0.0, 0.0, -1.0, 0.0]]))
+            elif kind == 'tiny':
+                e[o:o + 4] = small_q(rng, rng.choice([1e-9, 1e-5, 1e-3]))
+            elif kind in ('like', 'neg') and like is not None:
+                e[o:o + 4] = [(-v if kind == 'neg' else v) for v in like]
+            return e
+        dim = elt_dim(lt)
+        e = [rng.uniform(-1.5, 1.5) for _ in range(dim)]
+        o = 3 if lt in ('se3', 'sim3') else 0
+        if kind == 'identity':
+            e[o:o + 3] = [0.0, 0.0, 0.0]
+        elif kind == 'tiny':
+            e[o:o + 3] = [v * 1e-6 for v in e[o:o + 3]]
+        return e
+    xs = [elt(lx) for _ in range(numel(sx))]
+    ys = [elt(ly, like=(rot_quat(lx, rng.choice(xs)) if xs else None)) for _ in range(numel(sy))]
+    lay = lambda sh: rng.choice(LAYOUTS) if rng.random() < 0.6 else 'contiguous'
+    return dict(kind='geodesic-shape', lx=lx, ly=ly, sx=list(sx), sy=list(sy), xs=xs, ys=ys, layx=lay(sx), layy=lay(sy))
+
+
+def geo_key(why):
+    for word, key in (('raised', 'raises'), ('modified', 'mutation'), ('returned shape', 'shape'), ('outside', 'range'),
+                      ('symmetric', 'symmetry'), ('differs from', 'call-form')):
+        if word in why:
+            return 'geodesic:' + key
+    return 'geodesic:angle'
+
+
 # ------------------------------------------------------------------------------------- run
 def run(ctx):
     pp = import_pypose()
@@ -494,7 +809,7 @@ def run(ctx):
         ctx.case(('chs', N, a, b, sh, D, line), nontrivial=True, branch='chspline:%s' % ('dyadic' if is_pow2(b) else 'non-dyadic'),
                  sample=dict(call='chspline', N=N, interval='%d/%d' % (a, b), batch=sh, dim=D) if len(chs_meta) % 41 == 3 else None)
         if why:
-            viol('chspline:%s' % ('line' if 'straight' in why else ('count' if 'shape' in why else 'interpolation')), why, chs_case_dict(pts, a, b, ln))
+            viol(chs_key(why), why, chs_case_dict(pts, a, b, ln))
             continue
         out = pp.chspline(pts, q)
         cols_in = pts.reshape(-1, N, D)
@@ -603,7 +918,7 @@ def run(ctx):
     for _ in range(ctx.scale(8, 100)):
         a, b = rng.choice(INTERVALS)
         lplan.append((rng.randint(4, 60), a, b))
-    for (N, a, b) in lplan:
+    for li, (N, a, b) in enumerate(lplan):
         data = [rand_pose(rng) for _ in range(N)]
         wins = sorted(set([0, N - 4] + [rng.randrange(N - 3) for _ in range(3)]))
         G = rand_pose(rng, 5.0)
@@ -612,6 +927,9 @@ def run(ctx):
         checks = [('count', data, None), ('continuity', data, wins), ('left', data, dict(G=G)),
                   ('twist', None, dict(T0=T0, xi=xi, N=N)), ('endpoints', data, None),
                   ('endpoints', data[:rng.randint(1, 3)], None)]
+        if N <= 12 or li % 3 == 0:
+            bsh = rng.choice([(1,), (2,), (3,), (2, 2), (2, 1, 2), (1, 3)])
+            checks.append(('batch', None, dict(sh=list(bsh), items=[[rand_pose(rng) for _ in range(N)] for _ in range(numel(bsh))])))
         for which, dat, extra in checks:
             ctx.case(('bs-law', which, N, a, b, repr(extra)[:40]), branch='bspline:law:' + which)
             why = bs_laws(pp, torch, dat, a, b, which, extra)
@@ -808,6 +1126,18 @@ def run(ctx):
             viol('geodesic:%s' % ('range' if 'outside' in why else ('symmetry' if 'symmetric' in why else 'angle')), why,
                  dict(kind='geodesic-law', ltype=lt, xs=xs, ys=ys))
 
+    # batch shapes (unbatched, multi-dimensional, broadcasting, empty), memory layouts, call forms, mixed types
+    for gi in range(ctx.scale(90, 900)):
+        c = gen_geo_shape(rng, torch, gi)
+        bs = bcast_shape(c['sx'], c['sy'])
+        ctx.case(('geo-shape', gi, c['lx'], c['ly'], tuple(c['sx']), tuple(c['sy']), c['layx'], c['layy'], repr(c['xs'][:1])),
+                 branch='geodesic-shape:%s:%s' % ('empty' if bs is not None and numel(bs) == 0 else ('unbatched' if bs == () else
+                        ('broadcast' if tuple(c['sx']) != tuple(c['sy']) else '%d-D' % len(bs))), 'mixed-types' if c['lx'] != c['ly'] else 'same-type'),
+                 sample=dict(call='geodesic_loss', input=c['lx'] + str(c['sx']), target=c['ly'] + str(c['sy']), layouts=[c['layx'], c['layy']]) if gi % 37 == 9 else None)
+        why = geo_shape_laws(pp, torch, c)
+        if why:
+            viol(geo_key(why), why, c)
+
     # ================================================================ run Coq
     ctx.notes.append('python part (proof build, implementation calls, law checks), cumulative seconds after chspline / bspline / metric ties / metric laws / geodesic: %.0f %.0f %.0f %.0f %.0f' % (tA, tB, tC, tD, time.time() - ctx.t0))
     from concurrent.futures import ThreadPoolExecutor as _TPE
@@ -851,7 +1181,7 @@ def run(ctx):
                         break
             if why:
                 mm['explained'] = True
-                viol('chspline:%s' % ('line' if 'straight' in why else ('count' if 'shape' in why else 'interpolation')), why, chs_case_dict(pts, m['a'], m['b'], m['line']))
+                viol(chs_key(why), why, chs_case_dict(pts, m['a'], m['b'], m['line']))
     for i in bad['cnt']:
         m = cnt_meta[i]
         mm = dict(family='chspline-count', case=dict(a=m['a'], b=m['b'], k=m['k']), detail='')
@@ -969,6 +1299,8 @@ def replay(ctx, c):
         return metric_laws(pp, torch, c['case'], c['which'], c.get('extra'))
     if k == 'pairs_by_frames':
         return pf_oracle(pp, torch, c['n'], c['delta'], c['all'])
+    if k == 'geodesic-shape':
+        return geo_shape_laws(pp, torch, c)
     if k in ('geodesic-law', 'geodesic'):
         return geo_laws(pp, torch, c['ltype'], c['xs'], c['ys'])
     return None
